@@ -164,6 +164,8 @@ func runSpecial(name, prop string, seed int64, n int, drvPath, widths, outPath, 
 		specialLocks(c)
 	case "resizeidle":
 		specialResizeIdle(c)
+	case "spanline":
+		specialSpanLine(c)
 	default:
 		fmt.Println("unknown special check", name)
 		return 2
